@@ -41,7 +41,7 @@ PROPS = {
         "rule": "series: mixture of small-integer / uniform / wide-range / fitness-like values, ascending, descending or shuffled; non-trivial = non-empty and not ascending; "
                 "aggregates: non-trivial = at least 2 trials and 3 generations; distinct by (n, leading value, median) resp. (trials, generations, solved trials)",
         "assumptions": ["champions are non-nil (the record format has no presence marker and the library always sets one)", "fitness ties between champions admit any of the tied organisms"],
-        "expect_classes": {"series": ["empty series", "not ascending"], "aggregates": ["solved trial", "solved and unsolved trials", "trial without generations", "no trials"]},
+        "expect_classes": {"series": ["empty series", "not ascending"], "aggregates": ["accessors called before the comparison", "solved trial", "solved and unsolved trials", "trial without generations", "no trials"]},
     },
     "C06": {
         "run": "^TestC06",
@@ -150,7 +150,7 @@ PROPS = {
         "rule": "history: start genome G-direct (non-modular, 1-10 genes), G-opts, 1-60 actions; a step is non-trivial when a structural mutator succeeded on a genome that already had a hidden node or a disabled gene; epochs: non-trivial turnover = population with hidden nodes, disabled or recurrent genes; distinct by shape tuples",
         "assumptions": ["trait ids consecutive, sensors carry the lowest node ids (as in every shipped genome and as add-link assumes)", "fitness finite, non-negative, <= 1e12"],
         "expect_classes": {"history": ["succeeded:add_node", "succeeded:add_link", "succeeded:connect_sensors", "new gene inserted in the middle of the gene list (innovation reused from the record)", "new recurrent gene", "crossover with the same link under two innovation numbers", "op:mate_singlepoint", "end of generation"],
-                           "epochs": ["constructor:spawn", "constructor:random", "constructor:read", "parallel executor", "sequential executor", "turnover that grew hidden nodes", "turnover with several species"], "modular": ["modular"]},
+                           "epochs": ["constructor:spawn", "constructor:random", "constructor:read", "constructor:reread", "parallel executor", "sequential executor", "turnover that grew hidden nodes", "turnover with several species"], "modular": ["modular"]},
     },
     "C05": {
         "run": "^TestC05",
@@ -173,7 +173,7 @@ PROPS = {
         "level_note": "trusted: the harness's bookkeeping of which species existed before each turnover (pointer identity) and of all species ids seen; fitness finite, non-negative, <= 1e12",
         "rule": "G-epochs scenarios, population 3-40 (120 thorough); a turnover is non-trivial when it starts with >= 2 species, can steal babies (BabiesStolen > 0 and a species older than 5) or runs the all-zero fallback; distinct by (epoch, #species, size, program, stolen, executor, #old species)",
         "assumptions": ["mate_multipoint_avg_prob + mate_singlepoint_prob > 0 (the method is chosen with their ratio)", "random populations containing a gene-less genome are skipped (counted)"],
-        "expect_classes": {"epochs": ["species:1", "species:2-5", "species:6+", "turnover founding new species", "turnover with species extinction", "turnover where babies can be stolen", "fitness:zero", "parallel executor", "constructor:random", "constructor:read"]},
+        "expect_classes": {"epochs": ["species:1", "species:2-5", "species:6+", "turnover founding new species", "turnover with species extinction", "turnover where babies can be stolen", "fitness:zero", "parallel executor", "constructor:random", "constructor:read", "constructor:reread"]},
     },
     "C03": {
         "run": "^TestC03",
@@ -211,7 +211,7 @@ PROPS = {
         "rule": "direct: non-trivial arrival = at least two robustly compatible species of which the first is not the closest (separates 'closest' from 'first compatible'); epochs: non-trivial turnover = more than one species afterwards; distinct by (arrival index, #species, #compatible, chosen, first compatible) / (epoch, #species, size)",
         "assumptions": ["representative of a species = its first organism at the time of the comparison", "threshold > 0"],
         "expect_classes": {"direct": ["arrival with several compatible species", "first compatible species is not the closest", "arrival founding a species while others exist", "several batches", "method:fast", "method:linear", "distance exactly equal to the threshold", "species removed between arrivals"],
-                           "epochs": ["member of a surviving species", "member of a new species", "founder of a species founded in this turnover", "species founded in a turnover in which another went extinct", "constructor:random", "constructor:read"]},
+                           "epochs": ["member of a surviving species", "member of a new species", "founder of a species founded in this turnover", "species founded in a turnover in which another went extinct", "constructor:random", "constructor:read", "constructor:reread"]},
     },
     "C09": {
         "run": "^TestC09",
@@ -252,7 +252,7 @@ PROPS = {
         "level_note": "trusted: the canonical dump covers every exported field of organisms, genomes and species and the population counters; 'unrelated earlier work' is sampled by a fixed menu of interference, not enumerated",
         "rule": "G-epochs scenarios with the sequential executor, 1-20 (30) epochs, structural rates biased upwards; non-trivial = at least 5 epochs and the genomes grew (structural mutation and crossover took place); distinct by (constructor, epochs, size, program, seed, dump length)",
         "assumptions": ["the global math/rand source is seeded by the harness per run (go.mod go 1.23, so rand.Seed is effective; asserted at start-up)"],
-        "expect_classes": {"rerun": ["constructor:spawn", "constructor:random", "constructor:read", "fitness:genome", "genomes grew"]},
+        "expect_classes": {"rerun": ["constructor:spawn", "constructor:random", "constructor:read", "constructor:reread", "fitness:genome", "genomes grew"]},
     },
 }
 
